@@ -178,7 +178,7 @@ def run_ops(h, ops, V, stats, inputs, snap, xrng, scribble_ok=False):
             elif name == "scribble":
                 # the caller re-uses its start array for something else: recorded history must not follow it
                 # (only done by a sampler that owns a private copy of the inputs, i.e. not inside a shared group)
-                if scribble_ok:
+                if scribble_ok and isinstance(h.inputs["start"], np.ndarray) and h.inputs["start"].flags.writeable:
                     st_arr = h.inputs["start"]
                     st_arr += (1000 + np.arange(st_arr.size)).reshape(st_arr.shape).astype(st_arr.dtype)
                     snap.update(lc.snapshot_inputs(inputs))
